@@ -331,14 +331,26 @@ def run_kill(cid, rng, workdir, res):
     for j in range(3):
         d = prep("k%d" % j)
         before = fs_snapshot(d)
-        delay = rng.uniform(0.3, 1.0) * T
-        proc = subprocess.Popen(exe, cwd=d, env=env, stdout=subprocess.DEVNULL, stderr=subprocess.DEVNULL)
-        time.sleep(delay)
-        alive = proc.poll() is None
-        if alive:
-            proc.send_signal(signal.SIGKILL)
-        proc.wait()
-        after = fs_snapshot(d)
+        frac = rng.uniform(0.3, 1.0)
+        for attempt in range(4):
+            # the machine load changes between the reference run and this one: when the program finished before the
+            # signal, the run time estimate is replaced by what was just measured and the run is repeated
+            delay = frac * T
+            t1 = time.time()
+            proc = subprocess.Popen(exe, cwd=d, env=env, stdout=subprocess.DEVNULL, stderr=subprocess.DEVNULL)
+            time.sleep(delay)
+            alive = proc.poll() is None
+            if alive:
+                proc.send_signal(signal.SIGKILL)
+            proc.wait()
+            after = fs_snapshot(d)
+            if alive or attempt == 3:
+                break
+            T = min(T, time.time() - t1 - 0.0) * 0.9
+            bump(res, "cli_finished_before_kill_retried")
+            shutil.rmtree(d)
+            d = prep("k%d" % j)
+            before = fs_snapshot(d)
         bump(res, "cli_runs")
         if not alive:
             bump(res, "cli_finished_before_kill")
